@@ -1,6 +1,8 @@
 #!/bin/sh
 # Runs the repository's pinned baseline (guard OFF) and checks that all 64 stable tests pass.
-cd /repo && env -u PDT_VERIF /venv/bin/python -m pytest -ra -q -p no:cacheprovider --timeout=900 \
+#   baseline.sh [dir]      dir: a checkout of the repository (default /repo); its src/ is put first on PYTHONPATH
+D=${1:-/repo}
+cd "$D" && env -u PDT_VERIF PYTHONPATH="$D/src" PYTHONDONTWRITEBYTECODE=1 /venv/bin/python -m pytest -ra -q -p no:cacheprovider --timeout=900 \
    --continue-on-collection-errors --junitxml=/tmp/pdt_baseline_$$.xml >/tmp/pdt_baseline_$$.log 2>&1
 /venv/bin/python - "$$" <<'PY'
 import json,sys,xml.etree.ElementTree as ET
